@@ -27,6 +27,15 @@ impl Config {
     pub fn file_name_suffix(&self) -> String {
         format!("{:?}_{}", self.max_gap, self.bucket_size)
     }
+    /// path (without extension) of the cache files for the series at `source_path`
+    pub(crate) fn cache_path(&self, source_path: &Path) -> std::path::PathBuf {
+        let mut resampled_name = source_path.file_name().unwrap_or_default().to_owned();
+        resampled_name.push("_");
+        resampled_name.push(self.file_name_suffix());
+        let mut path = source_path.to_path_buf();
+        path.set_file_name(resampled_name);
+        path
+    }
     fn header(&self, name: &OsStr) -> String {
         let name = name.to_string_lossy();
         format!(
